@@ -158,9 +158,10 @@ impl SendHandle for MemSender {
         // 0 = completes at once; 1 = pending before anything is written; 2 = the bytes reach the
         // peer but the call stays pending once more (write_all done, flush pending)
         // with `faulty_sends`: 3 = the bytes reach the peer but the call reports an I/O error (write_all ok,
-        // flush fails), 4 = the call fails before anything was written
+        // flush fails), 4 = the call fails before anything was written, 5 / 6 = as 3 with the "transient" error
+        // kinds Interrupted / WouldBlock (an interrupted flush: the bytes are out, the caller may be tempted to retry)
         let (ask, faulty) = { let w = self.wire.lock(); (w.stall_mode == StallMode::Ask, w.faulty_sends) };
-        let mode = if ask { choose("send", if faulty { 5 } else { 3 }) } else { 0 };
+        let mode = if ask { choose("send", if faulty { 7 } else { 3 }) } else { 0 };
         if mode == 4 {
             return Err(io_err("injected send failure (nothing written)"));
         }
@@ -187,6 +188,10 @@ impl SendHandle for MemSender {
         }
         if mode == 3 {
             return Err(io_err("injected send failure (after the bytes were delivered)"));
+        }
+        if mode == 5 || mode == 6 {
+            let kind = if mode == 5 { std::io::ErrorKind::Interrupted } else { std::io::ErrorKind::WouldBlock };
+            return Err(Error::Transport(std::io::Error::new(kind, "injected transient send failure (after the bytes were delivered)")));
         }
         Ok(())
     }
